@@ -78,19 +78,19 @@ fn subs() -> Vec<Sub> {
     eprintln!("  generated population: {} root schemas, {} version pairs, {} (schema, presence-mask) combinations", nr, npairs, np);
     let mut v = g_codec::checks::c07::subs();
     v.push(Sub { prop: "C07", name: "derived", rule: "value of a generated derived type (schema grammar over every value-affecting attribute): len == bytes written, exact buffer suffices, one byte less fails; distinct by bytes",
-                 kind: Kind::Random { quick: 300_000, thorough: 6_000_000, tape: 768, f: c07_derived } });
+                 kind: Kind::Random { quick: 1_500_000, thorough: 6_000_000, tape: 768, f: c07_derived } });
     v.push(Sub { prop: "C07", name: "derived-presence", rule: "every generated schema x every presence combination of its root-level optional fields (exhaustive up to 6 optionals), deterministic leaf values",
                  kind: Kind::Enumerate { quick: np, thorough: np, f: presence07, complete_quick: true, complete_thorough: true } });
     v.push(Sub { prop: "C08", name: "wire-format", rule: "value of a generated type: to_vec == reference encoder driven by the schema (documented format); second spelling (renamed, reordered, n<->b) of the same schema encodes the same tape-drawn value to identical bytes; non-trivial = an absent/gap null or a tag occurs; distinct by bytes",
-                 kind: Kind::Random { quick: 300_000, thorough: 6_000_000, tape: 768, f: c08_random } });
+                 kind: Kind::Random { quick: 1_500_000, thorough: 6_000_000, tape: 768, f: c08_random } });
     v.push(Sub { prop: "C08", name: "presence", rule: "every generated schema x every presence combination of root-level optional fields (exhaustive up to 6)",
                  kind: Kind::Enumerate { quick: np, thorough: np, f: presence08, complete_quick: true, complete_thorough: true } });
     v.push(Sub { prop: "C09", name: "roundtrip", rule: "value of a generated type: decode(own encoding + junk) == value with skipped fields defaulted, exact consumption, borrowing fields point into the input; the same through a re-framed encoding (indefinite bodies/collections, wider heads); negative edits of the item tree (wrong/removed tag at struct/enum/variant/field level, mandatory field removed, unused variant index) must fail with the documented error class",
-                 kind: Kind::Random { quick: 200_000, thorough: 4_000_000, tape: 768, f: c09_random } });
+                 kind: Kind::Random { quick: 1_000_000, thorough: 4_000_000, tape: 768, f: c09_random } });
     v.push(Sub { prop: "C09", name: "presence", rule: "every generated schema x every presence combination of root-level optional fields (exhaustive up to 6): round-trip",
                  kind: Kind::Enumerate { quick: np, thorough: np, f: presence09, complete_quick: true, complete_thorough: true } });
     v.push(Sub { prop: "C10", name: "version-pairs", rule: "pairs (old, new) of generated schema universes related by 1-4 documented-compatible edits (add/drop optional field at fresh or gap index, add variant to an optional-only enum, unit variant -> variant with optional fields): a value of either version decodes with the other; field-wise comparison through a schema-generic view (shared equal, reader-only absent, writer-only ignored, unknown variant -> None with siblings intact), exact consumption; non-trivial = the two views differ",
-                 kind: Kind::Random { quick: 300_000, thorough: 6_000_000, tape: 768, f: c10_random } });
+                 kind: Kind::Random { quick: 1_500_000, thorough: 6_000_000, tape: 768, f: c10_random } });
     v
 }
 
